@@ -539,7 +539,11 @@ func checkParseXor(c *core.Ctx, l *core.Ledger) {
 	if nf := c.SSAFunc(c.LookupFunc("idl", "newParseError")); nf != nil {
 		var why []string
 		zero := core.GuardEdges(nf, func(cm core.Cmp) bool {
-			return cm.Op == token.EQL && core.Sym(cm.X) == "len($0)" && core.Sym(cm.Y) == "c:0"
+			if core.Sym(cm.X) != "len($0)" {
+				return false
+			}
+			y := core.Sym(cm.Y) // "the list is empty" in any spelling: == 0, <= 0, < 1
+			return (y == "c:0" && (cm.Op == token.EQL || cm.Op == token.LEQ)) || (y == "c:1" && cm.Op == token.LSS)
 		})
 		core.Instrs(nf, func(in ssa.Instruction) {
 			r, ok := in.(*ssa.Return)
